@@ -20,6 +20,8 @@ TYPOOL = [
     # several inputs, only one of them (or only the output) generic
     ("Box<dyn Fn(T, u8) -> u8>", "T", False), ("Box<dyn Fn(u8, u16) -> U>", "U", False), ("fn(u8, T) -> u8", "T", False),
     ("fn(u8, u16) -> V", "V", False), ("Box<dyn Fn(u8, u16)>", "", False),
+    # qualified paths with a concrete `Self` type: the parameter is in the trait's / the associated type's arguments
+    ("<u8 as Conv<T>>::Out", "T", True), ("<Fam as Family>::Of<U>", "U", True), ("<u8 as Conv<u16>>::Out", "", True),
 ]
 
 
@@ -252,6 +254,11 @@ pub fn need_Binary<X: fmt::Binary>() {}
 pub fn need_LowerExp<X: fmt::LowerExp>() {}
 pub fn need_UpperExp<X: fmt::UpperExp>() {}
 pub fn need_Pointer<X: fmt::Pointer>() {}
+pub trait Conv<X> { type Out; }
+impl<X> Conv<X> for u8 { type Out = Vec<X>; }
+pub struct Fam;
+pub trait Family { type Of<X>; }
+impl Family for Fam { type Of<X> = Option<X>; }
 '''
 
 
